@@ -174,8 +174,9 @@ func runIntBin(x *engine.X, op intBinOp, sa, sb shape, same bool) {
 }
 
 // division family
-//   EuclideanDiv / EuclideanDivVarTime: floor-style Euclidean division, remainder a Nat in [0,|d|)
-//   Div / DivVarTime: truncated division, remainder an Int with the sign of the numerator
+//
+//	EuclideanDiv / EuclideanDivVarTime: floor-style Euclidean division, remainder a Nat in [0,|d|)
+//	Div / DivVarTime: truncated division, remainder an Int with the sign of the numerator
 func runIntDiv(x *engine.X, which int, sn, sd shape, same bool) {
 	names := []string{"EuclideanDiv", "EuclideanDivVarTime", "Div", "DivVarTime"}
 	name := names[which]
